@@ -112,7 +112,7 @@ ASSUME \A i \in 1..(2 * NT) : TLCSet(i, 0)
 BadClause ==
   IF Batch[tid].prop = "C08"
   THEN IF ~NoHang THEN 6 ELSE IF ~TruncIsError THEN 2 ELSE IF ~Payload THEN 1 ELSE IF ~Persist THEN 5
-       ELSE IF ~NoOverRead THEN 4 ELSE IF ~CompleteIsOk THEN 3 ELSE 0
+       ELSE IF ~WholeMessage THEN 7 ELSE IF ~NoOverRead THEN 4 ELSE IF ~CompleteIsOk THEN 3 ELSE 0
   ELSE IF ~RespBytes THEN 11 ELSE IF ~ReqBytes THEN 12 ELSE IF ~EventPairs THEN 18 ELSE IF ~WarcParses THEN 19
        ELSE IF ~RecAtMostOne THEN 14
        ELSE IF ~RecCount THEN 13 ELSE IF ~RecBlocksM THEN 15 ELSE IF ~RevisitBlocks THEN 20 ELSE IF ~RecLinked THEN 16
